@@ -103,7 +103,8 @@ def case_summary(c: dict, out: Optional[dict] = None) -> dict:
     return s
 
 
-def run(prop: str, rep: common.Report, *, tiers_quick=("d0", "d1"), tiers_thorough=("d0", "d1", "u", "d2"), per_case=None):
+def run(prop: str, rep: common.Report, *, tiers_quick=("d0", "d1"), tiers_thorough=("d0", "d1", "u", "d2"), per_case=None,
+        per_case_nonjson=False):
     """per_case(u, c, tp, val, kw, out, report_violation) adds the property's own comparisons."""
     import apischema.cache
     from apischema import serialize
@@ -165,7 +166,7 @@ def run(prop: str, rep: common.Report, *, tiers_quick=("d0", "d1"), tiers_thorou
                 un = run_serialize(serialize, val, **kw)
                 if un["kind"] != "ok" or not ser_equal(c["any"], un["d"]):
                     violate("untyped", f"serialize(v) without type differs: {json.dumps({k: v for k, v in un.items() if k != 'raw'})[:300]}")
-            if per_case is not None and out["kind"] == "ok":
+            if per_case is not None and (out["kind"] == "ok" or (per_case_nonjson and out["kind"] == "nonjson")):
                 per_case(u, c, tp, val, kw, out, violate)
             if replayed % 3001 == 1:
                 rep.sample({"replayed": case_summary(c, out)})
